@@ -52,6 +52,11 @@ const followDup = "https://l.example/f/dup"   // stored, ours, names one followe
 const remoteArticle = "https://r1.example/n/article"
 
 func c04world(a *ap.App) {
+	ManyPeers(a, 17)
+	for i := 0; i < 9; i++ {
+		id := fmt.Sprintf("https://r1.example/n/many%d", i)
+		a.PutRemote(id, Doc("Note", id, "attributedTo", Carol, "content", fmt.Sprintf("many %d", i)))
+	}
 	a.PutRemote(remoteArticle, Doc("Article", remoteArticle, "attributedTo", Carol, "name", "a title", "summary", "content warning", "to", L{Public}, "tag", Emb("Hashtag", "", "name", "#x")))
 	// the stored Follow names two followed actors (Carol and Dave); Erin was never followed
 	a.PutDoc(Doc("Follow", Follow1, "actor", Alice, "object", L{Carol, Dave}))
@@ -400,6 +405,43 @@ func c04cases(thorough bool) []c04case {
 			}
 		}
 	}
+	// sizes beyond the small alphabets: a Follow by 5..9, 12 and 17 actors (the automatic answer goes to all of
+	// them), Add / Remove / Like / Announce / Create / Delete naming 5..9 objects
+	for _, n := range []int{5, 6, 7, 8, 9, 12, 17} {
+		var actors L
+		for i := 0; i < n; i++ {
+			if i%3 == 1 {
+				actors = append(actors, Emb("Person", Peer(i), "inbox", Peer(i)+"/inbox"))
+			} else {
+				actors = append(actors, Peer(i))
+			}
+		}
+		for _, of := range []pub.OnFollowBehavior{pub.OnFollowAutomaticallyAccept, pub.OnFollowAutomaticallyReject} {
+			add("Follow", Doc("Follow", RAct, "actor", actors, "object", Alice), of)
+		}
+	}
+	for _, n := range []int{5, 6, 7, 8, 9} {
+		var iris, mixed L
+		for i := 0; i < n; i++ {
+			id := fmt.Sprintf("https://r1.example/n/many%d", i)
+			iris = append(iris, id)
+			if i%2 == 0 {
+				mixed = append(mixed, Emb("Note", id, "attributedTo", Carol, "content", fmt.Sprintf("many %d", i)))
+			} else {
+				mixed = append(mixed, id)
+			}
+		}
+		add("Add", Doc("Add", RAct, "actor", Carol, "object", iris, "target", Col1), 0)
+		add("Add", Doc("Add", RAct, "actor", Carol, "object", mixed, "target", L{OCol1, Col1}), 0)
+		add("Remove", Doc("Remove", RAct, "actor", Carol, "object", append(L{Dave}, iris...), "target", Col1), 0)
+		add("Create", Doc("Create", RAct, "actor", Carol, "object", mixed), 0)
+		add("Delete", Doc("Delete", RAct, "actor", Carol, "object", iris), 0)
+		var owned L
+		for i := 0; i < n; i++ {
+			owned = append(owned, []interface{}{Note1, Note2, noteEmptyOrdered, noteEmptyColl, cachedForeign}[i%5])
+		}
+		add("Like", Doc("Like", RAct, "actor", Carol, "object", owned[:5]), 0)
+	}
 	followAlpha := []interface{}{Follow1, Emb("Follow", Follow1, "actor", Alice, "object", Carol),
 		followBob, Emb("Follow", followBob, "actor", Alice, "object", L{Carol, Dave}), Emb("Follow", followBob, "actor", Bob, "object", L{Carol, Dave}),
 		followNone, Emb("Follow", followNone, "actor", Alice, "object", Carol), RNote,
@@ -457,7 +499,7 @@ func c04cases(thorough bool) []c04case {
 func C04(tier string) int {
 	res := NewResult("C04", tier, "exploration")
 	cases := c04cases(res.Thorough())
-	res.Rule = fmt.Sprintf("each handled inbox activity type with every sequence of 1..%d objects / targets / actors from per-type alphabets (IRI and embedded, owned and foreign, Collection / OrderedCollection / non-collection targets, absent / unordered / ordered likes and shares, missing documents), OnFollow in {nothing, accept, reject}, Follow object in {this actor, another local actor, remote, list, embedded, this actor's id plus a query / a fragment / a trailing slash / in another path case}, x callback configuration {none, wrapped, wrapped failing, 'other' override}, plus single-hook configurations (exactly one other type X wrapped / overridden, for all 11 X): %d requests; a reference model written from the documentation is applied to the initial state and diffed against the real final state; deliveries and callback order are compared too; plus every ordered pair of single-valued activities (up to 4 per type and OnFollow mode; thorough: all) delivered one after the other to ONE application (the application's OnFollow mode and callback configuration - none / every type overridden by 'other' functions - may change between the two) with the model applied step by step, every triple over a reduced alphabet (the first case - Add / Remove: two - of each type and OnFollow mode), and single faults inside the default effect", map[bool]int{false: 2, true: 3}[res.Thorough()], len(cases))
+	res.Rule = fmt.Sprintf("each handled inbox activity type with every sequence of 1..%d objects / targets / actors from per-type alphabets (IRI and embedded, owned and foreign, Collection / OrderedCollection / non-collection targets, absent / unordered / ordered likes and shares, missing documents), OnFollow in {nothing, accept, reject}, Follow object in {this actor, another local actor, remote, list, embedded, this actor's id plus a query / a fragment / a trailing slash / in another path case}, x callback configuration {none, wrapped, wrapped failing, 'other' override}, plus a Follow by 5..9, 12 and 17 actors and Add / Remove / Create / Delete / Like naming 5..9 objects, plus single-hook configurations (exactly one other type X wrapped / overridden, for all 11 X): %d requests; a reference model written from the documentation is applied to the initial state and diffed against the real final state; deliveries and callback order are compared too; plus every ordered pair of single-valued activities (up to 4 per type and OnFollow mode; thorough: all) delivered one after the other to ONE application (the application's OnFollow mode and callback configuration - none / every type overridden by 'other' functions - may change between the two) with the model applied step by step, every triple over a reduced alphabet (the first case - Add / Remove: two - of each type and OnFollow mode), and single faults inside the default effect", map[bool]int{false: 2, true: 3}[res.Thorough()], len(cases))
 	res.Assumptions = []string{"order among several followers added by one Follow is not asserted", "where a later object/target makes the effect fail, the effect on earlier ones (list order) stays, as the code does; the statement does not forbid it",
 		"top-level @context of stored values is not compared (C01)"}
 	var mu sync.Mutex
